@@ -183,3 +183,18 @@ def o_c02(spec, obs):
         d = [i for i in range(min(len(cmd), len(exp))) if cmd[i] != exp[i]]
         return True, "command frame differs from the reference layout: len %d vs %d, first differing offsets %s" % (len(cmd), len(exp), d[:6])
     return False, "ok"
+
+
+# ------------------------------------------------------------------------------- C14
+@oracle("C14")
+def o_c14(spec, obs):
+    import datetime as dt
+
+    s, e = spec["args"]
+    h1, m1 = [int(x) for x in s.split(":")]
+    h2, m2 = [int(x) for x in e.split(":")]
+    secs = (((h2 * 60 + m2) - (h1 * 60 + m1)) % 1440) * 60
+    exp = "%d:%02d:%02d" % (secs // 3600, (secs // 60) % 60, 0)
+    if obs.get("result") != exp:
+        return True, "duration(%s,%s) = %r, expected %r" % (s, e, obs.get("result", obs.get("exception")), exp)
+    return False, "ok"
